@@ -32,6 +32,7 @@ META = {
                     "numbers < 2^63; the operation sequences only contain calls whose non-crash behaviour C13 already judges"],
 }
 REQUIRED_ORACLES = ["crash-point-state", "normal-close-state", "reopen-usable", "real-process-death", "emulation-agrees-with-real-death"]
+REQUIRED_COUNTERS = ["renumberings_of_a_journal_with_more_than_1000_rows"]
 NSHARDS = 16
 N = {"quick": 60, "thorough": 1500}
 NSUB = {"quick": 2, "thorough": 10}     # sequences per shard that also get the real-subprocess "interpreter exit" ending
@@ -42,7 +43,7 @@ SESS = [("T", "S"), ("S", "T"), ("T", "S2")]
 
 
 def plan(tier, seed):
-    return [{"shard": i, "n": N[tier], "nsub": NSUB[tier], "nfork": NFORK[tier] if (tier != "quick" or i < 8) else 0} for i in range(NSHARDS)]
+    return [{"shard": i, "nshards": NSHARDS, "tier": tier, "n": N[tier], "nsub": NSUB[tier], "nfork": NFORK[tier] if (tier != "quick" or i < 8) else 0} for i in range(NSHARDS)]
 
 
 # ------------------------------------------------------------------ operation sequences + model
@@ -258,6 +259,24 @@ def run_shard(spec, acc):
             rnd = random.Random(f"{spec['seed']}:C08:{shard}:{c}")
             ops = gen_ops(rnd)
             one_sequence(acc, ctl, shim, base, ops, dirs, cid, with_subprocess=c < spec["nsub"], with_fork=c < spec["nfork"])
+        # a journal with more than a thousand rows per direction, then renumbering / reset: an operation that works through the
+        # table in portions must still be applied entirely or not at all
+        bigs = [(1100, 40, 1, 1), (2300, 1200, 1, 1), (1500, 30, 700, 10)]
+        for bi, (nout, nin, so, si_) in enumerate(bigs):
+            cid = f"big:{nout}:{nin}:{so}:{si_}"
+            if bi % spec["nshards"] != shard or not acc.want(cid) or (spec.get("tier") == "quick" and bi > 0):
+                continue
+            rnd = random.Random(f"{spec['seed']}:C08:big:{bi}")
+            ops = [["load", 0], ["load", 1], ["persist", 1, 1, 1, payload(rnd, 1, "other").hex()]]
+            for q in range(1, nout + 1):
+                ops.append(["persist", 0, 1, q, payload(rnd, q, "o").hex()])
+            for q in range(1, nin + 1):
+                ops.append(["persist", 0, 0, q, payload(rnd, q, "i").hex()])
+            k0 = len(ops)
+            ops.append(["set", 0, so, si_])
+            ops.append(["persist", 0, 1, so, payload(rnd, so, "after").hex()])
+            one_sequence(acc, ctl, shim, base, ops, dirs, cid, with_subprocess=False, with_fork=False, kill_from_op=k0)
+            acc.add("renumberings_of_a_journal_with_more_than_1000_rows")
     finally:
         undo()
         shutil.rmtree(base, ignore_errors=True)
@@ -284,7 +303,7 @@ def show_ops(ops):
     return out
 
 
-def one_sequence(acc, ctl, shim, base, ops, dirs, cid, with_subprocess, with_fork):
+def one_sequence(acc, ctl, shim, base, ops, dirs, cid, with_subprocess, with_fork, kill_from_op=0):
     from vf.sim import crash
     # model states: states[k] = after ops[:k]
     m = Model()
@@ -336,6 +355,8 @@ def one_sequence(acc, ctl, shim, base, ops, dirs, cid, with_subprocess, with_for
     #     sequences additionally a forked child that really dies by os._exit at the same boundary; both must agree.
     for b in range(nb):
         i = op_of[b]          # op in flight (-1 = constructor)
+        if i < kill_from_op:
+            continue          # (a long journal is built first: only the operations of interest are crash-tested)
         nontrivial = i >= 0 and i < len(ops) and changing[i]
         path = fresh(base, "e.db")
         ctl.n = 0
